@@ -725,6 +725,13 @@ def r19_positions_taken_on_the_buffered_stream(cx, rule="R19"):
         raise AnchorLost("position queries in the creators: %d" % n)
 
 
+def r20_no_partial_write_accepted(cx):
+    """every byte of a content reaches its cluster: a direct `Write::write` into the compressor or the file may take
+    fewer bytes than it is given; its count decides a retry or the bytes are gone (= C09-R7 under C01)"""
+    import c09
+    c09.r7_no_partial_write_accepted(cx, rule="R20")
+
+
 def r10_witness(cx):
     """type-level: ContentPackCreator::finalize consumes the creator (no insertion after finalisation)"""
     import witness
@@ -759,4 +766,5 @@ RULES = [
     ("R17", r17_content_rewound_before_queued, 1),
     ("R18", r18_tables_are_single_blocks, 5),
     ("R19", r19_positions_taken_on_the_buffered_stream, 1),
+    ("R20", r20_no_partial_write_accepted, 1),
 ]
